@@ -34,6 +34,9 @@ TEXT = {
     "C09": dict(technique="property-based testing (rapid): reference fold over the match sequence with an independent $-grammar expander",
                 text="Generated-input search over patterns x inputs x $-grammar replacement strings (valid, ambiguous, literal-$) x startAt x count x both directions: Replace == fold(match sequence, own expander); ReplaceFunc(same expansion) == Replace; Replace($&) == input; Split(count) == fold with groups interleaved and its pieces re-joined with the matched texts rebuild the input.",
                 note="The match sequence comes from Find*StartingAt + FindNextMatch (validated by C07). $+ read as the last group in Groups() order. ECMAScript excluded.", ref="§6 C09"),
+    "C10": dict(technique="fuzzing: rapid byte-level generation in the quick tier, native coverage-guided go fuzzing (5 targets) in the thorough tier; oracle = returns normally or with a permitted error, no panic, 30 s watchdog",
+                text="Arbitrary bytes (corpus-seeded, mutated, hostile fragments) as pattern / input / replacement, all 2^9 option subsets, compile options incl. tiny stack limits, out-of-range start offsets and counts, driven through Compile/MustCompile, all match calls with full iteration, Replace/ReplaceFunc/Split, 22 adapter methods and Escape/Unescape. A process-killing failure (out of memory, fatal error) is reported with the case that was running.",
+                note="Every Regexp gets MatchTimeout=100ms so exponential matching is a permitted error; hang = no return within 30 s on <=64-byte patterns and <=256-byte inputs. Native fuzz campaigns are not seed-reproducible; crashers are.", ref="§6 C10"),
 }
 
 PENDING = "check not built yet in this session (work in progress; see DESIGN.md section 6 for the planned generated-input check)"
